@@ -107,6 +107,10 @@ pub struct Scn {
     pub multi: bool,
     #[serde(default)]
     pub mt: bool,
+    /// writer families: the scenario's data is a random block of this many bytes repeated cyclically
+    /// (matches at exactly this distance)
+    #[serde(default)]
+    pub period: usize,
     /// include the strict records of the input in the result (family read)
     #[serde(default)]
     pub want_recs: bool,
@@ -261,7 +265,12 @@ struct Script<'a> {
 
 fn script(s: &Scn) -> Script<'_> {
     let total: usize = s.calls.iter().filter(|c| c.op == "write" && c.class.is_none() && c.copy_of.is_none()).map(|c| c.n).sum();
-    let base = gen::data(if s.class.is_empty() { "text" } else { &s.class }, total, s.seed);
+    let base = if s.period > 0 {
+        let blk = gen::data("random", s.period, s.seed);
+        blk.iter().copied().cycle().take(total).collect::<Vec<u8>>()
+    } else {
+        gen::data(if s.class.is_empty() { "text" } else { &s.class }, total, s.seed)
+    };
     let mut bpos = 0usize;
     let mut data = Vec::new();
     let mut cuts = Vec::new();
@@ -632,20 +641,28 @@ fn run_read(s: &Scn) -> Value {
            "src_calls": src.calls})
 }
 
-/// LZIP dictionary-size byte: the header byte the real writer emits for each requested size (empty member).
+/// LZIP dictionary-size byte. For every requested size: what the crate's `encode_dict_size` returns (hook H6)
+/// and what `decode_dict_size` makes of that byte; for sizes up to 1 MiB also the header byte the real
+/// LZIPWriter emits (empty member). `bytes`: decode of every listed byte value.
 fn run_dictbyte(s: &Scn) -> Value {
     let mut rows = Vec::new();
     for &d in &s.sizes {
-        let mut lo = LZMAOptions::with_preset(0);
-        lo.dict_size = d;
-        let w = LZIPWriter::new(Vec::new(), LZIPOptions { lzma_options: lo, member_size: None });
-        match w.finish() {
-            Ok(f) if f.len() >= 6 => rows.push(json!({"d":d,"byte":f[5],"len":f.len()})),
-            Ok(f) => rows.push(json!({"d":d,"byte":-1,"len":f.len()})),
-            Err(e) => rows.push(json!({"d":d,"byte":-1,"err":errs(&e)})),
+        let enc = lzma_rust2::verif_lzip_dict::encode(d);
+        let dec = enc.and_then(lzma_rust2::verif_lzip_dict::decode);
+        let mut row = json!({"d":d,"enc":enc.map(|x| x as i64).unwrap_or(-1),"dec":dec.map(|x| x as i64).unwrap_or(-1),"hdr":-2});
+        if d <= (1 << 20) {
+            let mut lo = LZMAOptions::with_preset(0);
+            lo.dict_size = d;
+            let w = LZIPWriter::new(Vec::new(), LZIPOptions { lzma_options: lo, member_size: None });
+            row["hdr"] = match w.finish() {
+                Ok(f) if f.len() >= 6 => json!(f[5]),
+                _ => json!(-1),
+            };
         }
+        rows.push(row);
     }
-    json!({"outcome":"ok","rows":rows})
+    let bytes: Vec<Value> = (0u32..256).map(|b| json!(lzma_rust2::verif_lzip_dict::decode(b as u8).map(|x| x as i64).unwrap_or(0))).collect();
+    json!({"outcome":"ok","rows":rows,"bytes":bytes})
 }
 
 pub fn run_scenario(s: &Scn) -> Value {
